@@ -18,7 +18,7 @@ TECHNIQUE = (
     "assume/guarantee: (1) the derived primitives (choice, choice_weighted, shuffle, pop_random, random_bool, "
     "normalvariate) are run for EVERY in-bounds answer of randint on an exhaustive scripted source (E1, full ranges); "
     "(2) each source's two base methods are enumerated over all gene lists A^L x a bounds alphabet (genotype-backed "
-    "sources) or seeds x bounds (native source); (3) the deciders' bounded draws over the bounds alphabet x all sub-draws"
+    "sources) or seeds x bounds (native source); (3) the deciders' bounded draws over the bounds alphabet x all sub-draws; (4) two sources over the same genes (seed) under EVERY interleaving of three draws each with a third source created in between, against the stream of a source used alone"
 )
 RULE = (
     "units: primitive x argument alphabet (option lists n<=5, weight vectors over {0,1,2,3,.5}e-5 so that the integer "
